@@ -217,10 +217,9 @@ def ferrOut {α : Type} (inp : MdsFile.Input) (gap : MdsFile.Input → Out α) :
   | .writer (.player e) => .inputError (playerMsg e)
   | .writer _ => .inputError "MDSDRV: command rejected by the track writer"
   | .codec .atEmpty => .foreign "out_of_range"
-  | .codec .stackEmpty => .inputError "MDSDRV: loop break or loop end without a loop start in the sequence data"
-  | .codec .stackEmpty => .inputError "MDSDRV: loop break or loop end command without a loop start"   -- fix c5dd456
+  | .codec .stackEmpty => .inputError "MDSDRV: loop break or loop end command without a loop start"   -- fix 3e0ed67
   | .indexRange => .inputError "MDSDRV: index does not fit in a byte"
-  | .headerWrap => .inputError "MDSDRV: sequence header too large"   -- fix 8d409a9
+  | .headerWrap => .inputError "MDSDRV: sequence header too large"   -- fix 5952bf5
   | .seqTooLarge => .inputError "MDSDRV: sequence data too large"
   | .bankIndex => .foreign "ub:bank-index"
   | .riff _ => .foreign "riff"
